@@ -344,3 +344,69 @@ def run_batch(rng, n_modules, model, hostile=0.015, extra_sources=()):
         c.mo = mo
         c.diff = "model error: " + str(mo["__error__"]) if "__error__" in mo else compare(c.im, mo)
     return cases
+
+
+def run_file_batch(rng, n_modules, model, hostile=0.015):
+    """Like run_batch, but through the real FileAnalyser: every callable rattr analyses in the file
+    (module-level defs, named lambdas, class initialisers, static methods) is captured at the moment
+    its FunctionAnalyser runs, together with the context as it is at that moment."""
+    from props import bodygen
+    from rattr.analyser.file import FileAnalyser
+
+    cases, reqs = [], []
+    for _ in range(n_modules):
+        src, _names = bodygen.gen_module(rng, n_funcs=3, hostile=hostile, with_classes=True)
+        impl.reset_config(target=TARGET)
+        tree = ast.parse(src)
+        captured = []
+        depth = [0]
+        orig = FunctionAnalyser.analyse
+
+        def wrapper(self):
+            if depth[0] > 0:
+                return orig(self)
+            depth[0] += 1
+            try:
+                req = model_request(self.ast, self.context)
+                tap = impl.Tap()
+                with tap:
+                    out = impl.outcome_of(orig, self)
+                captured.append((self.ast, req, self, out, list(tap.events)))
+                if out[0] == "ok":
+                    return out[1]
+                if out[0] == "fatal":
+                    raise SystemExit(out[1])
+                raise RuntimeError("crash:" + str(out[1]))
+            finally:
+                depth[0] -= 1
+
+        with impl.Tap(), enter_file(TARGET):
+            ctx = compile_root_context(tree)
+            FunctionAnalyser.analyse = wrapper
+            try:
+                impl.outcome_of(lambda: FileAnalyser(tree, ctx).analyse())
+            finally:
+                FunctionAnalyser.analyse = orig
+        for node, req, fa, out, events in captured:
+            c = Case()
+            c.module_src, c.fn = src, node
+            c.name = getattr(node, "name", "<lambda>")
+            c.fn_src = ast.unparse(node)
+            ir = fa.func_ir
+            diags = [template_of(e) for e in events]
+            im = {"gets": names_json(ir["gets"]), "sets": names_json(ir["sets"]), "dels": names_json(ir["dels"]),
+                  "calls": sorted((canon_call(call_json(x)) for x in ir["calls"]), key=impl_json_key), "diags": diags}
+            if out[0] == "ok":
+                im["outcome"], im["exc"] = "ok", ""
+            elif out[0] == "fatal":
+                im["outcome"], im["exc"] = "fatal", (diags[-1][1] if diags else "")
+            else:
+                im["outcome"], im["exc"] = "crash", out[1]
+            c.im, c.events = im, events
+            reqs.append(req)
+            cases.append(c)
+    outs = model.batch(reqs)
+    for c, mo in zip(cases, outs):
+        c.mo = mo
+        c.diff = "model error: " + str(mo["__error__"]) if "__error__" in mo else compare(c.im, mo)
+    return cases
